@@ -1,0 +1,25 @@
+//go:build verif
+
+package fontscan
+
+// Accessor used by the external verification harness for property C14 (build tag "verif").
+// It only forwards to an unexported function; no behaviour is changed.
+
+// VerifFamilyScore mirrors scoreStrong: the position of a family in the expanded family list
+// (lower is better) and whether it is a 'strong' entry.
+type VerifFamilyScore struct {
+	Score  int
+	Strong bool
+}
+
+// VerifSubstitutions forwards to familyCrible.fillWithSubstitutionsList: it returns the
+// (normalized) families reached from [families] by the substitution table for [lang].
+func VerifSubstitutions(families []string, lang LangID) map[string]VerifFamilyScore {
+	fc := make(familyCrible)
+	fc.fillWithSubstitutionsList(families, lang)
+	out := make(map[string]VerifFamilyScore, len(fc))
+	for family, s := range fc {
+		out[family] = VerifFamilyScore{Score: s.score, Strong: s.strong}
+	}
+	return out
+}
